@@ -6,9 +6,13 @@ use std::env;
 use std::fs;
 
 mod client;
+mod holder;
 mod queue;
 mod sinks;
 mod writer;
+
+#[global_allocator]
+static GLOBAL: holder::GateAlloc = holder::GateAlloc;
 
 fn main() {
     let args: Vec<String> = env::args().collect();
@@ -48,7 +52,8 @@ fn main() {
             "writer" => writer::replay(&sc),
             "client" => client::replay(&sc),
             "sink" => sinks::replay(&sc),
-            "queue" => queue::replay(&sc),
+            "holder-window" => holder::replay(&sc),
+            "queue" | "queue-capacity" | "queue-blocking-emit" | "queue-stats" => queue::replay(&sc),
             _ => json!({"error": format!("unknown scenario kind {}", kind)}),
         };
         outs.push(out);
